@@ -145,9 +145,33 @@ theorem T_C09_tree_list (t : RT) (k : Kind) (a : Rat) (ch : List Ent) (h : Heap)
   simp only [applyE, h1] at this
   exact ⟨this.1, this.2.1, this.2.2.1⟩
 
-/-- translate / rotate / scale never change the tree; -/
-theorem T_C09_tree_shape (t : RT) (ht : t.isMirror = false) (e : Ent) (h : Heap) : (applyE t e h).1 = e :=
+/-- translate / rotate / scale never change the tree, except that every cached interpolation function on the
+    way is invalidated (`InterpolatedCurveBase.parts`); -/
+theorem T_C09_tree_shape (t : RT) (ht : t.isMirror = false) (e : Ent) (h : Heap) : (applyE t e h).1 = invalidE e :=
   applyE_tree t ht e h
+
+/-! ### T_C09_cache — the cached interpolation function never survives a transformation -/
+
+/-- after one element of a transformation list, whatever the state of the cache before, the next evaluation of the
+    curve is based on the transformed rows, and those are the images of the old rows under the map whose default
+    origin is the centre of the curve *as it evaluated before the step* -/
+theorem T_C09_cache (g : V3 → V3 → V3) (c : ICurve) :
+    ((c.transformStep g).eval).1 = (c.transformStep g).pts ∧
+      (c.transformStep g).pts = c.pts.map (g (avg c.eval.1)) := by
+  cases hc : c.cache <;> simp [ICurve.transformStep, ICurve.eval, ICurve.parts, hc]
+
+/-- the order matters: looking the centre up after `.parts` has been read re-validates the function from the old
+    rows, and the curve keeps evaluating them (rows moved from x = 0, 2 to x = 5, 7, evaluation still 0, 2) -/
+theorem T_C09_cache_lazy_counterexample :
+    let c : ICurve := ⟨[⟨0, 0, 0⟩, ⟨2, 0, 0⟩], some [⟨0, 0, 0⟩, ⟨2, 0, 0⟩]⟩
+    let g : V3 → V3 → V3 := fun _ p => p + ⟨5, 0, 0⟩
+    ((c.transformStepLazy g).eval).1 = [⟨0, 0, 0⟩, ⟨2, 0, 0⟩] ∧
+      ((c.transformStepLazy g).eval).1 ≠ (c.transformStepLazy g).pts := by
+  simp only [ICurve.transformStepLazy, ICurve.eval, ICurve.parts, List.map]
+  refine ⟨trivial, ?_⟩
+  intro h
+  have := congrArg (fun l => (l.headD V3.zero).x) h
+  simp at this
 
 /-- `Operation.mirror` mirrors the six parts, swaps the two faces and reverses the data of the four side edges
     (so that each side edge still describes the mirror image of its curve, now from the other end) -/
@@ -211,7 +235,7 @@ theorem T_C09_compose_face (t : RT) (a : Rat) (i0 i1 i2 i3 : Nat) (edges : List 
   have g3 := ht.1 i3 (hv i3 (by simp))
   have hshape : ∃ es', (applyE t e h).1 = .node .face a (.pt i0 :: .pt i1 :: .pt i2 :: .pt i3 :: es') := by
     simp only [e, applyE, applyL]
-    cases hm : t.isMirror <;> simp
+    cases hm : t.isMirror <;> simp [touchAttr]
   obtain ⟨es', hs⟩ := hshape
   rw [hs]
   simp only [center, faceCenter, facePts, children, List.take, List.filterMap, ptOf, Option.map, e]
